@@ -234,6 +234,10 @@ CORE_FILES = [
     "job_shop_lib/graphs/_build_disjunctive_graph.py",
     "job_shop_lib/graphs/_build_agent_task_graph.py",
     "job_shop_lib/graphs/graph_updaters/_utils.py",
+    "job_shop_lib/reinforcement_learning/_single_job_shop_graph_env.py",
+    "job_shop_lib/dispatching/feature_observers/_feature_observer.py",
+    "job_shop_lib/dispatching/feature_observers/_position_in_job_observer.py",
+    "job_shop_lib/dispatching/feature_observers/_remaining_operations_observer.py",
 ]
 
 
